@@ -222,13 +222,11 @@ def make_slot(c, path, sym, i, facts):
 
 
 def _all_kind(c, name, kinds):
+    from vc.deffun import AllPred
     U = c["U"]
     key = "allk_" + name
     if key not in c:
-        def body(q):
-            n = z3.Length(q)
-            return z3.If(n == 0, z3.BoolVal(True), z3.And(U.is_node(q[0], kinds), c[key](z3.SubSeq(q, 1, n - 1))))
-        c[key] = DefFun(key, [U.Seq], z3.BoolSort(), body, cheap=True)
+        c[key] = AllPred(key, U.Seq, lambda t: U.is_node(t, kinds))
     return c[key]
 
 
@@ -421,7 +419,7 @@ def facts_mro(c, name):
 
 
 def install_helpers(c, explode=True):
-    """Contracts for _explode_attr (derived summary) and the loop invariant of _reverse_attributes."""
+    """Contracts for _explode_attr (derived summary) and for _reverse_attributes."""
     E, U, PV, facts = c["E"], c["U"], c["PV"], c["facts"]
     if "explode" in c:
         return
@@ -452,15 +450,79 @@ def install_helpers(c, explode=True):
     c["explode"] = explode_df
     c["explode_cases"] = finish()[1]
 
-    def inv(E, path, frame, rest, whole):
-        owner = frame.lookup(path, "owner")
-        entry = path.ghost["_entry"]["owner0"]
-        return c["build_path"](E.to_pv(owner), rest) == c["build_path"](entry, whole)
+    # Contract of _reverse_attributes as the grammar uses it (first segment + left-nested rest):
+    #   requires attr = Attribute(first, rest), first a shaped Identifier, rest a shaped left-nested path
+    #   ensures  result == prepend_path(first, rest), a shaped path; raises nothing
+    # Its body (list pops and a fold over the exploded names) is NOT proved against this contract: that
+    # needs three sequence inductions.  It is covered by the labelled bounded stand-in
+    # `bounded._reverse_attributes` (all paths up to 7 segments), and listed under assumptions.
+    fr = cf["members"]["_reverse_attributes"]
 
-    def on_entry(E, path, frame, entry):
-        entry["owner0"] = E.to_pv(frame.lookup(path, "owner"))
+    def reverse_contract(E, path, fref, args, kwargs):
+        t = E.to_pv(args[1])
+        first, rest = U.field("Attribute", "owner", t), U.field("Attribute", "attr", t)
+        path.oblige("pre.path", z3.And(U.is_kind("Attribute", t), node_inv(c, first, ["Identifier"]),
+                                       U.is_kind("Attribute", rest), c["shape"](rest)))
+        r = c["prepend"](first, rest)
+        path.assume(z3.And(U.is_kind("Attribute", r), c["shape"](r)))
+        return Sym(r)
+    E.contracts[fr["qualname"]] = reverse_contract
 
-    E.loop_invariants[(cf["members"]["_reverse_attributes"]["qualname"], 0)] = SeqLoopInvariant(inv, on_entry=on_entry)
+
+BOUNDED_REVERSE = r"""
+import json, itertools
+from odata_query import ast
+from odata_query.grammar import ODataParser
+P = ODataParser()
+
+def left_nested(names):
+    p = ast.Identifier(names[0])
+    for n in names[1:]:
+        p = ast.Attribute(p, n)
+    return p
+
+def prepend(first, rest):
+    if isinstance(rest, ast.Attribute):
+        return ast.Attribute(prepend(first, rest.owner), rest.attr)
+    return ast.Attribute(first, rest.name)
+
+problems, n = [], 0
+for depth in range(2, BOUND + 1):
+    for ns in ((), ('ns',), ('n1', 'n2')):
+        for names in itertools.product('ab', repeat=depth):
+            first = ast.Identifier('r', ns)
+            rest = left_nested(list(names))
+            n += 1
+            try:
+                got = P._reverse_attributes(ast.Attribute(first, rest))
+            except Exception as ex:
+                problems.append(['r/' + '/'.join(names), type(ex).__name__ + ': ' + str(ex)])
+                continue
+            if got != prepend(first, rest):
+                problems.append(['.'.join(ns + ('r',)) + '/' + '/'.join(names), repr(got)[:200]])
+print(json.dumps({'violates': bool(problems), 'cases': n, 'problems': problems[:3]}))
+"""
+
+
+def bounded_reverse(prop, tier):
+    """Labelled bounded stand-in for the body of _reverse_attributes / _explode_attr."""
+    from vc.runner import native_run
+    import time
+    bound = 7 if tier == "quick" else 11
+    t0 = time.time()
+    script = BOUNDED_REVERSE.replace("BOUND", str(bound))
+    nat = native_run(script)
+    ok = nat.get("violates") is False
+    return {"name": f"{prop}:odata_query.grammar.ODataParser._reverse_attributes:bounded", "clause": "bounded",
+            "bounded": True, "status": "discharged" if ok else ("refuted" if nat.get("violates") else "undecided"),
+            "seconds": time.time() - t0, "backend": "native enumeration (bounded, not a proof)",
+            "bound": f"all left-nested paths of 2..{bound} segments over 2 names x 3 root namespaces ({nat.get('cases')} cases)",
+            "reason": json_short(nat), "native_script": script}
+
+
+def json_short(x):
+    import json
+    return json.dumps(x)[:300]
 
 
 # ------------------------------------------------------------------------------------------
@@ -693,3 +755,124 @@ def run_function_call(c, timeout, prop):
     base = f"{prop}:{m['qualname']}"
     return outcomes_to_results(E, base, src_of(m), res, post, lambda exc: False, {"func": func, "args": args}, timeout,
                                raise_post=raise_post)
+
+
+# ------------------------------------------------------------------------------------------
+# lexer callbacks
+# ------------------------------------------------------------------------------------------
+def install_split_model(c):
+    E, U = c["E"], c["U"]
+
+    def split(E, path, s, args):
+        if len(args) != 1 or not isinstance(args[0], str) or not args[0]:
+            raise Unsupported("str.split without a constant separator")
+        parts = U.fresh("parts", U.Seq)
+        text = s.term() if isinstance(s, SStr) else z3.StringVal(s)
+        # contract of str.split(sep): at least one part, all strings, joining them gives the text back
+        path.assume(z3.And(z3.Length(parts) >= 1, c["S"].all_str(parts),
+                           U.str_join(z3.StringVal(args[0]), parts) == text))
+        return ListObj(parts, fresh=True)
+    E.ext_models["str.split"] = split
+
+
+def run_token_action(c, rule, timeout, prop, extra_post=None):
+    """Token action of one lexer rule: returns the same token, value = node of the rule's kind (shaped)."""
+    facts, E, U, PV = c["facts"], c["E"], c["U"], c["PV"]
+    install_split_model(c)
+    name = rule["name"]
+    act = rule["action"]
+    if act is None:
+        return [{"name": f"{prop}:odata_query.grammar.ODataLexer.{name}:post.inv", "clause": "post.inv",
+                 "status": "discharged", "seconds": 0.0, "backend": "finite-check",
+                 "reason": "rule without action: the token value is the matched text"}]
+    text = z3.Const("text", z3.StringSort())
+    holder = {}
+
+    def runner(path):
+        t = TokObj(name, SStr([Atom(text, ("term",))]))
+        holder["t"] = t
+        self_obj = Obj(LEXER)
+        path.ghost["tok"] = t
+        return E.run_function(path, FuncRef(act, defcls=LEXER), [self_obj, t], self_val=self_obj)
+
+    res = explore(E, runner)
+    kind = TOKEN_KIND.get(name)
+
+    def post(path, v):
+        t = path.ghost["tok"]
+        goals = [("post.token", z3.BoolVal(v is t))]
+        val = t.attrs.get("value")
+        try:
+            vt = E.to_pv(val)
+            goals.append(("post.inv", node_inv(c, vt, [kind]) if kind else z3.BoolVal(True)))
+        except Unsupported:
+            goals.append(("post.inv", z3.BoolVal(False)))
+            vt = None
+        other = [w for w in t.writes if w != "value"]
+        goals.append(("frame", z3.BoolVal(not other and not path.ghost.get("writes"))))
+        if extra_post and vt is not None:
+            goals += extra_post(path, name, text, vt)
+        return goals
+
+    base = f"{prop}:{act['qualname']}"
+    return outcomes_to_results(E, base, src_of(act), res, post, lambda exc: False, {"text": text}, timeout)
+
+
+def run_error_hooks(c, timeout, prop):
+    facts, E, U = c["facts"], c["E"], c["U"]
+    out = []
+    for cls, fact, want, args in (
+            (LEXER, facts.raw["lexer"]["error"], "TokenizingException", ["tok"]),
+            (PARSER, facts.raw["parser"]["error"], "ParsingException", ["tok"]),
+            (PARSER, facts.raw["parser"]["error"], "ParsingException", [None])):
+        def runner(path, cls=cls, fact=fact, args=args):
+            self_obj = Obj(cls)
+            a = [TokObj("X", "x") if x == "tok" else x for x in args]
+            return E.run_function(path, FuncRef(fact, defcls=cls), [self_obj] + a, self_val=self_obj)
+        res = explore(E, runner)
+        base = f"{prop}:{fact['qualname']}[token={'None' if args[0] is None else 'Token'}]"
+
+        def raise_post(path, exc, want=want, args=args):
+            ok = exc.name == want and is_lib_exc(exc)
+            if want == "ParsingException":
+                ok = ok and exc.attrs.get("eof") is (args[0] is None)
+            return [("post.raise", z3.BoolVal(bool(ok)))]
+        out += outcomes_to_results(E, base, src_of(fact), res,
+                                   lambda path, v: [("post.raise", z3.BoolVal(False))],   # returning is a failure
+                                   lambda exc: False, {}, timeout, raise_post=raise_post)
+    return out
+
+
+def recursion_report(facts, prop):
+    """Ghost call depth (DESIGN C10): a repo callback may only reach recursive repo functions whose depth
+    is bounded by a constant; self-recursive helpers reached from the callbacks are reported."""
+    import ast as pyast
+    cf = facts.classes[PARSER]
+    graph = {}
+    for name, m in cf["members"].items():
+        if not m.get("definer_repo"):
+            continue
+        tree = facts.fdef(m)
+        calls = set()
+        for n in pyast.walk(tree):
+            if isinstance(n, pyast.Call) and isinstance(n.func, pyast.Attribute) and isinstance(n.func.value, pyast.Name) \
+                    and n.func.value.id == "self" and n.func.attr in cf["members"]:
+                calls.add(n.func.attr)
+        graph[name] = calls
+    out = []
+    for name in sorted(graph):
+        # is `name` on a cycle?
+        seen, stack, cyc = set(), list(graph[name]), False
+        while stack:
+            x = stack.pop()
+            if x == name:
+                cyc = True
+                break
+            if x not in seen and x in graph:
+                seen.add(x)
+                stack.extend(graph[x])
+        m = cf["members"][name]
+        out.append({"name": f"{prop}:{m['qualname']}:depth", "clause": "depth", "seconds": 0.0, "backend": "call-graph",
+                    "status": "refuted" if cyc else "discharged", "source": src_of(m), "function": name,
+                    "reason": "recursive: call depth grows with the input" if cyc else "not recursive: constant depth"})
+    return out
